@@ -81,6 +81,9 @@ def gen(src, tier):
         "ctrl": ctrl,
         "p_reject": p_reject,
         "burst": src.randint("burst", 1, 4),
+        # F11: attempts whose error estimate is exactly zero (error_power = inf), in runs of up to three -- the limit of
+        # the profile space (infinite admissible step); met in practice after an exact Taylor initialisation with a tiny dt0
+        "p_zero_error": src.choice("p_zero_error", [0.0, 0.0, 0.0, 0.03, 0.15]),
         "compiled": driver != "every_step" and src.flip("compiled", 1 / 3),
         "max_attempts": 3000,
     }
